@@ -84,6 +84,9 @@ func genStateful(t *rapid.T) Stateful {
 	c.OverBy = rapid.SampledFrom([]int{1, 2, 100, 4096, 5000, c.Limit, 3*c.Limit + 7}).Draw(t, "over-by")
 	c.Overs = rapid.SampledFrom([]int{1, 1, 1, 2, 5}).Draw(t, "overs")
 	c.Use = rapid.SampledFrom([]string{"execute", "execute-twice", "describe-portal", "describe-stmt", "bind-again"}).Draw(t, "use")
+	if rapid.IntRange(0, 3).Draw(t, "sub-minimum-lengths?") == 0 {
+		c.SubMin = rapid.SliceOfN(rapid.Uint32Range(0, 3), 1, 3).Draw(t, "sub-min")
+	}
 	if rapid.IntRange(0, 4).Draw(t, "segmented") == 0 {
 		c.Segs = gen.Segments().Draw(t, "segs")
 	}
